@@ -18,6 +18,13 @@ ASSUMPTIONS = ["columns >= 1 (columns = 0 is a ZeroDivisionError in the library:
                "str arguments contain no ESC (fmtstr(str) would parse them; covered by C17)",
                "whitespace = the regex class \\s of the live `re` module (read per run for the code points used)"]
 
+LEVEL_NOTE = ("PARTIAL PROOF: the Lean theorems cover `no line longer than columns`, `no exception for columns >= 1` and "
+              "`wordless text gives []` for every Unicode environment and run layout (C16_len_partial, C16_total_partial, "
+              "C16_wordless_partial); the greedy-fit rule, long-word chopping, word order/formatting and joining-space "
+              "formatting are stated in Lean (C16_full_statement) but established only by the exhaustive model/implementation "
+              "correspondence plus the independent greedy-wrap oracle on every run. Trusted: Lean kernel + "
+              "propext/Classical.choice/Quot.sound, the hand-written model, the wire codec; CPython `re`/cwcwidth are modelled "
+              "(their tables are read live per run), not verified")
 ALPHA = ("a", "b", " ", "\t", "\n")
 PA = {"fg": 31, "bold": True}
 PB = {"fg": 31, "underline": True}
